@@ -76,6 +76,7 @@ var catalogue = []namedDecl{
 	{pkgAlpha, "alpha", "F", false, true, false, 0, false, false, "type F func(int) error"},
 	{pkgAlpha, "alpha", "M", false, true, false, 0, false, false, "type M map[string]int"},
 	{pkgAlpha, "alpha", "E", false, false, false, 0, false, true, "type E int"},
+	{pkgAlpha, "alpha", "Ord", false, false, false, 0, false, true, "type Ord int\n\nfunc (o Ord) Less(other Ord) bool { return o < other }"},
 	{pkgAlpha, "alpha", "G", false, false, false, 1, false, true, "type G[X any] struct{ V X }"},
 	{pkgAlpha, "alpha", "GI", false, true, false, 1, true, true, "type GI[X any] interface{ Get() X }"},
 	{pkgAlpha, "alpha", "A", true, false, false, 0, false, true, "type A = T"},
